@@ -64,8 +64,11 @@ def match_scope(my_scope: str, other_scope: str, match_by: MatchBy | str | None)
     match_scope correctly handles "%2F" (== '/') encoded values.
     """
     if match_by in (MatchBy.ldap, MatchBy.uri, MatchBy.uuid, '', None):
-        my_scope = urlsplit(my_scope)
-        other_scope = urlsplit(other_scope)
+        try:
+            my_scope = urlsplit(my_scope)
+            other_scope = urlsplit(other_scope)
+        except ValueError:  # not a valid URI (e.g. malformed IPv6 literal): it cannot match anything
+            return False
         if (
             my_scope.scheme.lower() != other_scope.scheme.lower()
             or my_scope.netloc.lower() != other_scope.netloc.lower()
